@@ -1,129 +1,7 @@
-import LexVerif.Proof.Tables.Util
-import LexVerif.Gen.FloatConsts
-import LexVerif.Proof.Tables.BellDefs
-/-!
-# Float layout / Eisel–Lemire constants and mask functions against `Spec.Fmt`; truncation witness
--/
+import LexVerif.Proof.Tables.FloatConstsDefs
+/-! theorems about the tables of `FloatConstsDefs` (definitions are split off so that the executable models never depend on a proof) -/
 namespace LexVerif.Proof.Tables
 open LexVerif.Spec LexVerif.Spec.PowerTables LexVerif.Gen
-
-structure FloatConstSet where
-  bits : Int
-  signMask : Int
-  exponentMask : Int
-  hiddenBitMask : Int
-  mantissaMask : Int
-  carryMask : Int
-  infinityBits : Int
-  negativeInfinityBits : Int
-  exponentSize : Int
-  mantissaSize : Int
-  exponentBias : Int
-  denormalExponent : Int
-  maxExponent : Int
-  maxMantissaFastPath : Int
-  infinitePower : Int
-  minExponentRoundToEven : Int
-  maxExponentRoundToEven : Int
-  minimumExponent : Int
-  smallestPowerOfTen : Int
-  largestPowerOfTen : Int
-  minExponentFastPath10 : Int
-  maxExponentFastPath10 : Int
-  maxExponentDisguisedFastPath10 : Int
-
-namespace FloatConstSet
-def F32 : FloatConstSet where
-  bits := Gen.FloatConsts.F32.bits
-  signMask := Gen.FloatConsts.F32.signMask
-  exponentMask := Gen.FloatConsts.F32.exponentMask
-  hiddenBitMask := Gen.FloatConsts.F32.hiddenBitMask
-  mantissaMask := Gen.FloatConsts.F32.mantissaMask
-  carryMask := Gen.FloatConsts.F32.carryMask
-  infinityBits := Gen.FloatConsts.F32.infinityBits
-  negativeInfinityBits := Gen.FloatConsts.F32.negativeInfinityBits
-  exponentSize := Gen.FloatConsts.F32.exponentSize
-  mantissaSize := Gen.FloatConsts.F32.mantissaSize
-  exponentBias := Gen.FloatConsts.F32.exponentBias
-  denormalExponent := Gen.FloatConsts.F32.denormalExponent
-  maxExponent := Gen.FloatConsts.F32.maxExponent
-  maxMantissaFastPath := Gen.FloatConsts.F32.maxMantissaFastPath
-  infinitePower := Gen.FloatConsts.F32.infinitePower
-  minExponentRoundToEven := Gen.FloatConsts.F32.minExponentRoundToEven
-  maxExponentRoundToEven := Gen.FloatConsts.F32.maxExponentRoundToEven
-  minimumExponent := Gen.FloatConsts.F32.minimumExponent
-  smallestPowerOfTen := Gen.FloatConsts.F32.smallestPowerOfTen
-  largestPowerOfTen := Gen.FloatConsts.F32.largestPowerOfTen
-  minExponentFastPath10 := Gen.FloatConsts.F32.minExponentFastPath10
-  maxExponentFastPath10 := Gen.FloatConsts.F32.maxExponentFastPath10
-  maxExponentDisguisedFastPath10 := Gen.FloatConsts.F32.maxExponentDisguisedFastPath10
-
-def F64 : FloatConstSet where
-  bits := Gen.FloatConsts.F64.bits
-  signMask := Gen.FloatConsts.F64.signMask
-  exponentMask := Gen.FloatConsts.F64.exponentMask
-  hiddenBitMask := Gen.FloatConsts.F64.hiddenBitMask
-  mantissaMask := Gen.FloatConsts.F64.mantissaMask
-  carryMask := Gen.FloatConsts.F64.carryMask
-  infinityBits := Gen.FloatConsts.F64.infinityBits
-  negativeInfinityBits := Gen.FloatConsts.F64.negativeInfinityBits
-  exponentSize := Gen.FloatConsts.F64.exponentSize
-  mantissaSize := Gen.FloatConsts.F64.mantissaSize
-  exponentBias := Gen.FloatConsts.F64.exponentBias
-  denormalExponent := Gen.FloatConsts.F64.denormalExponent
-  maxExponent := Gen.FloatConsts.F64.maxExponent
-  maxMantissaFastPath := Gen.FloatConsts.F64.maxMantissaFastPath
-  infinitePower := Gen.FloatConsts.F64.infinitePower
-  minExponentRoundToEven := Gen.FloatConsts.F64.minExponentRoundToEven
-  maxExponentRoundToEven := Gen.FloatConsts.F64.maxExponentRoundToEven
-  minimumExponent := Gen.FloatConsts.F64.minimumExponent
-  smallestPowerOfTen := Gen.FloatConsts.F64.smallestPowerOfTen
-  largestPowerOfTen := Gen.FloatConsts.F64.largestPowerOfTen
-  minExponentFastPath10 := Gen.FloatConsts.F64.minExponentFastPath10
-  maxExponentFastPath10 := Gen.FloatConsts.F64.maxExponentFastPath10
-  maxExponentDisguisedFastPath10 := Gen.FloatConsts.F64.maxExponentDisguisedFastPath10
-
-end FloatConstSet
-
-/-- layout constants of `lexical_util::num::Float` and `RawFloat` in terms of the IEEE format
-(`p` = precision with hidden bit, `ebits` = exponent width). Note lexical's `EXPONENT_BIAS` is the IEEE
-bias **plus** the mantissa size, `MAX_EXPONENT` is relative to it. -/
-def layoutOk (f : Fmt) (C : FloatConstSet) : Bool :=
-  C.bits == f.totalBits && C.signMask == f.signBit && C.exponentMask == f.infBits &&
-  C.hiddenBitMask == 2 ^ (f.p - 1) && C.mantissaMask == 2 ^ (f.p - 1) - 1 && C.carryMask == 2 ^ f.p &&
-  C.infinityBits == f.infBits && C.negativeInfinityBits == f.infBits + f.signBit &&
-  C.exponentSize == f.ebits && C.mantissaSize == f.p - 1 &&
-  C.exponentBias == f.bias + (f.p - 1) && C.denormalExponent == f.eminLsb &&
-  C.maxExponent == (f.maxExpField : Int) - C.exponentBias &&
-  C.maxMantissaFastPath == 2 ^ f.p && C.infinitePower == f.maxExpField &&
-  C.minimumExponent == -(f.bias : Int)
-
-/-- Eisel–Lemire constants. Round-to-even window (float.rs comment): `q ≥ 0`: `5^q ≤ 2^(p+1)`;
-`q < 0`: `5^(−q) < 2^(64−p)`; both bounds are the extreme ones.
-`SMALLEST_POWER_OF_TEN`: every `w < 2^64` has `w·10^q < 2^(eminLsb−1)` (rounds to zero) for
-`q < smallest` (sound; it is the least such bound for binary64 but not for binary32, where `−64` would
-do — see `smallest_power_of_ten_tightness`); `LARGEST_POWER_OF_TEN`: `10^q ≥ 2^(emax+1)`
-(infinite for every `w ≥ 1`) for `q > largest`, and `largest` is the greatest such. -/
-def lemireConstsOk (f : Fmt) (C : FloatConstSet) : Bool :=
-  let qmax := C.maxExponentRoundToEven.toNat
-  let qmin := (-C.minExponentRoundToEven).toNat
-  let s := (-C.smallestPowerOfTen).toNat
-  let l := C.largestPowerOfTen.toNat
-  let half := (1 - f.eminLsb).toNat        -- 2^(-half) = half the least subnormal
-  C.maxExponentRoundToEven ≥ 0 && C.minExponentRoundToEven ≤ 0 &&
-  5 ^ qmax ≤ 2 ^ (f.p + 1) && 2 ^ (f.p + 1) < 5 ^ (qmax + 1) &&
-  5 ^ qmin < 2 ^ (64 - f.p) && 2 ^ (64 - f.p) ≤ 5 ^ (qmin + 1) &&
-  C.smallestPowerOfTen < 0 && C.largestPowerOfTen > 0 &&
-  (2 ^ 64 - 1) * 2 ^ half < 10 ^ (s + 1) &&
-  2 ^ (f.bias + 1) ≤ 10 ^ (l + 1) && 10 ^ l < 2 ^ (f.bias + 1)
-
-/-- decimal fast-path constants agree with the limit tables -/
-def fastPathConstsOk (f : Fmt) (C : FloatConstSet) : Bool :=
-  let h := C.maxExponentFastPath10.toNat
-  C.minExponentFastPath10 == -C.maxExponentFastPath10 && C.maxExponentFastPath10 ≥ 0 &&
-  5 ^ h ≤ 2 ^ f.p && 2 ^ f.p < 5 ^ (h + 1) &&
-  (let m := (C.maxExponentDisguisedFastPath10 - C.maxExponentFastPath10).toNat
-   10 ^ m ≤ 2 ^ f.p && 2 ^ f.p < 10 ^ (m + 1))
 
 theorem float_consts_f32 :
     layoutOk f32 FloatConstSet.F32 = true ∧ lemireConstsOk f32 FloatConstSet.F32 = true ∧
